@@ -438,8 +438,54 @@ func partyLockEvent(in ssa.Instruction) int {
 			return -1
 		}
 	}
+	// a private helper of the engine (unlockAndReturn(p, ok, err)): its net effect on the lock of the party
+	// it is handed, when every path through it has the same effect
+	if g := core.Callee(cs); core.PrivateHelper(g) && !cs.Common().IsInvoke() && !lockEffectBusy[g] {
+		lockEffectBusy[g] = true
+		defer delete(lockEffectBusy, g)
+		effect := func(entry core.LockState, want core.LockState) bool {
+			ls := core.LockStates(g, partyLockEvent, entry)
+			n := 0
+			for _, ret := range core.Returns(g) {
+				if ls[ret] != want {
+					return false
+				}
+				n++
+			}
+			return n > 0
+		}
+		// the party (un)locked inside is a parameter of the helper fed with a parameter of the caller
+		sameParty := false
+		for _, c2 := range core.Calls(g) {
+			if partyLockEvent(c2) != 0 {
+				recv := core.Strip(c2.Common().Value)
+				if !c2.Common().IsInvoke() && len(c2.Common().Args) > 0 {
+					recv = core.Strip(c2.Common().Args[0])
+				}
+				if hp, isP := recv.(*ssa.Parameter); isP {
+					for k, q := range g.Params {
+						if q == hp && k < len(cs.Common().Args) {
+							if _, isCP := core.Strip(cs.Common().Args[k]).(*ssa.Parameter); isCP {
+								sameParty = true
+							}
+						}
+					}
+				}
+			}
+		}
+		if sameParty {
+			if effect(core.LsLocked, core.LsUnlocked) {
+				return -1
+			}
+			if effect(core.LsUnlocked, core.LsLocked) {
+				return 1
+			}
+		}
+	}
 	return 0
 }
+
+var lockEffectBusy = map[*ssa.Function]bool{}
 
 func c07Engine(c *ctx) {
 	const rule = "R07.3"
